@@ -105,6 +105,15 @@ func genEmuConfig(r *rand.Rand) procdrv.EmuConfig {
 	c.DLIface, c.ULIface = "verif-none0", "verif-none1"
 	c.UeNumber = 1
 	c.QuoteStyle = r.Intn(3)
+	if r.Intn(6) == 0 { // a TAB inside a value, escaped or as the character itself: white space inside a scalar is content
+		c.LiteralTab = r.Intn(3) != 0
+		if r.Intn(2) == 0 && len(c.GnbName) < 149 {
+			at := r.Intn(len(c.GnbName) + 1)
+			c.GnbName = c.GnbName[:at] + "\t" + c.GnbName[at:]
+		} else {
+			c.GnbID[r.Intn(len(c.GnbID))] = 0x09
+		}
+	}
 	return c
 }
 
